@@ -99,6 +99,12 @@ def _rand_ov(rng, bound):
 
 def cases(tier, rng):
   yield {'mode': 'shared', 'bind': [], 'via': None, 'calls': []}
+  # same NAME in two modules, referenced under the same scope (and under two scopes)
+  for scopes in (['train', 'train'], ['train', 'eval'], ['a/b', 'a/b'], ['', 'train']):
+    for order in (0, 1):
+      for cls in (False, True):
+        yield {'mode': 'twins', 'scopes': scopes, 'order': order, 'cls': cls,
+               'bind': [1], 'via': None, 'calls': []}
   for shape_i, scope, ev, amb, kind in itertools.product(
       range(6), ['', 'a', 'a/b'], [True, False], AMBIENTS[:5],
       ['none', 'pos', 'kw', 'reqpos', 'reqkw']):
@@ -531,10 +537,70 @@ def _run_shared(fails):
             'shared object')
 
 
+def _run_twins(case, fails):
+  """Two configurables with the same name in different modules, each referenced (plain and
+  evaluated) under a scope: every reference must reach ITS configurable, under ITS scope."""
+  log = []
+
+  def mk(tagname, cls):
+    if cls:
+      class build:                                   # pylint: disable=invalid-name
+
+        def __init__(self, tag=None):
+          log.append((tagname, gc.current_scope(), tag))
+          self.who = tagname
+      return build
+
+    def build(tag=None):
+      log.append((tagname, gc.current_scope(), tag))
+      return tagname
+    return build
+
+  mods = ['alpha', 'beta']
+  fns = {m: mk(m, case['cls']) for m in mods}
+  for m in (mods if case['order'] == 0 else mods[::-1]):
+    gin.external_configurable(fns[m], name='build', module=m)
+  got = {}
+
+  def cons(x=None, y=None, ex=None, ey=None):
+    got.update(x=x, y=y, ex=ex, ey=ey)
+
+  c = gin.external_configurable(cons, name='cons', module='twm')
+  sx, sy = case['scopes']
+  pre = lambda sc: sc + '/' if sc else ''
+  lines = ['%salpha.build.tag = %r' % (pre(sx), 'A@' + sx),
+           '%sbeta.build.tag = %r' % (pre(sy), 'B@' + sy),
+           'cons.x = @%salpha.build' % pre(sx), 'cons.y = @%sbeta.build' % pre(sy),
+           'cons.ex = @%salpha.build()' % pre(sx), 'cons.ey = @%sbeta.build()' % pre(sy)]
+  if case['order']:
+    lines = lines[:2] + [lines[3], lines[2], lines[5], lines[4]]
+  gin.parse_config('\n'.join(lines) + '\n')
+  for rnd in range(2):
+    del log[:]
+    c()
+    want = sorted([('alpha', sx.split('/') if sx else [], 'A@' + sx),
+                   ('beta', sy.split('/') if sy else [], 'B@' + sy)])
+    if sorted(log) != want:
+      _fail(fails, 'evalref_fresh_per_call', want, sorted(log),
+            'same-name twins: evaluated references, round %d' % rnd)
+    for key, m, sc, tag in (('x', 'alpha', sx, 'A@' + sx), ('y', 'beta', sy, 'B@' + sy)):
+      del log[:]
+      with _scope_cm(['t', 'b']):
+        got[key]()
+      exp_scope = sc.split('/') if sc else ['t', 'b']
+      exp_tag = tag                # (an unscoped reference: the root binding applies)
+      if log != [(m, exp_scope, exp_tag)]:
+        _fail(fails, 'ref_delivers_configurable' if [l[0] for l in log] != [m]
+              else 'scoped_ref_exact_scope', [(m, exp_scope, exp_tag)], list(log),
+              'same-name twins: delivered @%s round %d' % ('scoped' if sc else 'unscoped', rnd))
+
+
 def check(case):
   fails = []
   if case['mode'] == 'shared':
     _run_shared(fails)
+  elif case['mode'] == 'twins':
+    _run_twins(case, fails)
   else:
     _run_seq(case, fails)
   return fails
